@@ -2,7 +2,10 @@
 //!   c20 <n> <out>            generate n cases from VERIF_SEED;    c20 --replay <in> <out>  re-run the cases (ids c<k>_<seed>)
 //!   a third of the cases give all resources ONE shared ManualClock and a 10 ms cycle interval (threads park in sleep_until between
 //!   cycles, the controller advances the clock) and stop the resources one at a time
-//! Line:  <id> : nres ncmds : x y x_end limit nw (a b)* nres (state joined saves mine(-1 = none) bad)*
+//!   a quarter of the cases attach ONE StartGate to all resources: the controller opens it at a random point of its script, or never
+//!   (then every resource is stopped while it waits at the gate: state Stopped, no cycle, nothing saved); stop() goes through the
+//!   ResourceHandle or through a ResourceControl clone, chosen per resource
+//! Line:  <id> : nres ncmds gate(0 none, 1 opened, 2 never opened) : x y x_end limit nw (a b)* nres (state joined saves mine(-1 = none, -2 = stopped at the gate) bad)*
 //!   every resource runs:  IF x <> y THEN bad := bad + 1; x := x + 1; mine := mine + 1; y := y + 1; and the faulting one divides by zero
 //!   in its limit-th cycle.  Values are scaled down by nothing: counters are exact.
 use std::io::Write;
@@ -14,7 +17,7 @@ use trust_runtime::error::RuntimeError;
 use trust_runtime::harness::TestHarness;
 use trust_runtime::retain::RetainStore;
 use trust_runtime::RetainSnapshot;
-use trust_runtime::scheduler::{ManualClock, ResourceCommand, ResourceControl, ResourceHandle, ResourceRunner, ResourceState, SharedGlobals};
+use trust_runtime::scheduler::{ManualClock, ResourceCommand, ResourceControl, ResourceHandle, ResourceRunner, ResourceState, SharedGlobals, StartGate};
 use trust_runtime::value::{Duration, Value};
 use vh::Rng;
 
@@ -52,6 +55,8 @@ fn run_case(seed: u64) -> Result<String, String> {
     let mut handles: Vec<ResourceHandle<ManualClock>> = Vec::new();
     let shared_clock: Option<ManualClock> = if rng.chance(1, 3) { Some(ManualClock::new()) } else { None };
     let mut saves = Vec::new();
+    let gate: Option<Arc<StartGate>> = if rng.chance(1, 4) { Some(Arc::new(StartGate::new())) } else { None };
+    let never_open = gate.is_some() && rng.chance(1, 3);
     let mut shared: Option<SharedGlobals> = None;
     for i in 0..nres {
         let src = source(if faulty == Some(i) { limit } else { 0 });
@@ -61,16 +66,23 @@ fn run_case(seed: u64) -> Result<String, String> {
         saves.push(cnt);
         if shared.is_none() { shared = Some(SharedGlobals::from_runtime(vec!["x".into(), "y".into()], &rt).map_err(|e| format!("{e:?}"))?); }
         let runner = if let Some(clock) = &shared_clock { ResourceRunner::new(rt, clock.clone(), Duration::from_millis(10)) } else { ResourceRunner::new(rt, ManualClock::new(), Duration::from_millis(0)) };
+        let runner = if let Some(g) = &gate { runner.with_start_gate(g.clone()) } else { runner };
         handles.push(runner.spawn_with_shared(format!("res-{i}"), shared.clone().unwrap()).map_err(|e| format!("{e:?}"))?);
     }
     let shared = shared.unwrap();
     let ctl: Vec<ResourceControl<ManualClock>> = handles.iter().map(|h| h.control()).collect();
     let mut windows: Vec<(i64, i64)> = Vec::new();
     let ncmds = rng.range(2, 14);
-    for _ in 0..ncmds {
+    let open_at = if gate.is_some() && !never_open { rng.below(ncmds as u64) as i64 } else { -1 };
+    let mut opened = gate.is_none();
+    for k in 0..ncmds {
+        if k == open_at {
+            gate.as_ref().unwrap().open(); opened = true;
+            for c in &ctl { let t0 = Instant::now(); while c.state() == ResourceState::Ready && t0.elapsed() < StdDuration::from_secs(5) { std::thread::sleep(StdDuration::from_micros(100)); } }
+        }
         let i = rng.below(nres as u64) as usize;
         match rng.below(6) {
-            0 | 1 => {
+            0 | 1 if opened => {
                 let _ = ctl[i].pause();
                 if wait_state(&ctl[i], ResourceState::Paused, 2000) {
                     if let Some((a, _)) = query(&ctl[i]) {
@@ -79,6 +91,7 @@ fn run_case(seed: u64) -> Result<String, String> {
                     }
                 }
             }
+            0 | 1 => { if rng.chance(1, 2) { let _ = ctl[i].pause(); } }
             2 | 3 => { let _ = ctl[i].resume(); }
             4 => { if let Some(clock) = &shared_clock { clock.advance(Duration::from_millis(*rng.pick(&[1i64, 10, 10, 25]))); } std::thread::sleep(StdDuration::from_micros(rng.below(2000))); }
             _ => { for _ in 0..rng.below(5000) { std::hint::spin_loop(); } }
@@ -86,9 +99,9 @@ fn run_case(seed: u64) -> Result<String, String> {
     }
     // quiesce: pause everything that is alive, read the private counters and the shared pair
     for c in &ctl { let _ = c.pause(); }
-    let mut mine = vec![-1i64; nres]; let mut bad = vec![0i64; nres];
+    let mut mine = vec![if opened { -1i64 } else { -2i64 }; nres]; let mut bad = vec![0i64; nres];
     for (i, c) in ctl.iter().enumerate() {
-        if wait_state(c, ResourceState::Paused, 30000) {
+        if opened && wait_state(c, ResourceState::Paused, 30000) {
             if let Some((m, b)) = query(c) { mine[i] = m; bad[i] = b; }
         }
     }
@@ -97,10 +110,11 @@ fn run_case(seed: u64) -> Result<String, String> {
     let mut joined = vec![false; nres];
     let one_by_one = shared_clock.is_some();
     // on a shared clock the (paused) threads are parked in sleep_until between their polls: they are stopped one at a time
-    if !one_by_one { for h in &handles { h.stop(); } }
+    let via_control: Vec<bool> = (0..nres).map(|_| rng.chance(1, 2)).collect();
+    if !one_by_one { for (i, h) in handles.iter().enumerate() { if via_control[i] { ctl[i].stop(); } else { h.stop(); } } }
     let mut states = vec![0u8; nres];
     for (i, mut h) in handles.into_iter().enumerate() {
-        if one_by_one { h.stop(); }
+        if one_by_one { if via_control[i] { ctl[i].stop(); } else { h.stop(); } }
         let (tx, rx) = channel();
         let c = ctl[i].clone();
         std::thread::spawn(move || { let r = h.join(); let _ = tx.send(r.is_ok()); });
@@ -108,7 +122,7 @@ fn run_case(seed: u64) -> Result<String, String> {
         states[i] = state_num(c.state());
     }
     let x_end = dint(shared.get("x").as_ref());
-    let mut s = format!("{nres} {ncmds} : {x} {y} {x_end} {limit} {}", windows.len());
+    let mut s = format!("{nres} {ncmds} {} : {x} {y} {x_end} {limit} {}", if gate.is_none() { 0 } else if opened { 1 } else { 2 }, windows.len());
     for (a, b) in &windows { s += &format!(" {a} {b}"); }
     s += &format!(" {nres}");
     for i in 0..nres { s += &format!(" {} {} {} {} {}", states[i], joined[i] as u8, saves[i].load(Ordering::SeqCst), mine[i], bad[i]); }
